@@ -287,10 +287,10 @@ def dateadd_date_cast(expression: exp.Expression) -> exp.Expression:
     if (unit := expression.unit.this.upper()) and unit.upper() not in {"DAY", "WEEK", "MONTH", "YEAR"}:
         return expression
 
-    if not isinstance(expression.this, exp.Cast):
-        return expression
-
-    if expression.this.to.this != exp.DataType.Type.DATE:
+    # the date argument is a DATE if it is a cast to DATE or TO_DATE(...) / DATE(...) of anything
+    # (only TO_DATE of a string literal is parsed as a cast, every other argument gives a TsOrDsToDate node)
+    is_date_cast = isinstance(expression.this, exp.Cast) and expression.this.to.this == exp.DataType.Type.DATE
+    if not (is_date_cast or isinstance(expression.this, exp.TsOrDsToDate)):
         return expression
 
     return exp.Cast(
